@@ -64,6 +64,13 @@ PROPS = {
         ],
         "assumptions": ["the Lean model is value-semantic: it cannot alias, so every visible effect of Go map/pointer sharing is a model/implementation disagreement"],
     },
+    "C05": {
+        "corr": [("render", {"quick": 150, "thorough": 3000}), ("manifests", {"quick": 400, "thorough": 8000})],
+        "trusted_base": [
+            "not modelled: Go text/template and sprig execution (ranging over maps is sorted by text/template itself), the JSON-schema compiler's resource loading; determinism of whole renders is observed (repeated, concurrent, changed environment and working directory, archive- vs directory-loaded charts), not proved; proved: the orderings that feed the engine and the manifest do not depend on map iteration order; regenerated: the function-map facts",
+        ],
+        "assumptions": ["templates of the generated family use no time/random functions (now, randAlpha, uuidv4, genCA ... are classified non-deterministic by design and excluded)"],
+    },
     "C08": {
         "corr": [("manifests", {"quick": 1500, "thorough": 30000})],
         "trusted_base": [
